@@ -109,6 +109,8 @@ pub struct RunResult {
 	pub cov: Cov,
 	pub trace_hash: String,
 	pub aborted: Option<String>,
+	#[serde(default)]
+	pub known_hits: Vec<Violation>,
 }
 
 pub struct Run {
@@ -126,6 +128,7 @@ pub struct Run {
 	pub log: Vec<String>,
 	pub start_ms: i64,
 	pub verbose: bool,
+	pub known_hits: Vec<Violation>,
 }
 
 /// A property module: generator + oracles
@@ -173,6 +176,7 @@ impl Run {
 			log: vec![],
 			start_ms: hooks::now_ms(),
 			verbose: false,
+			known_hits: vec![],
 		}
 	}
 
@@ -319,9 +323,20 @@ pub fn kind_name(k: &hooks::FaultKind) -> &'static str {
 }
 
 /// Drive a property in generate mode
+/// signatures of known findings after which a run may go on (the defect leaves
+/// no derived damage for this property's oracles)
+pub fn known_continue(prop_id: &str) -> Vec<String> {
+	crate::driver::load_known()
+		.into_iter()
+		.filter(|k| k.property == prop_id && k.status == "known" && k.cont)
+		.map(|k| k.signature)
+		.collect()
+}
+
 pub fn generate(prop: &mut dyn Prop, run: &mut Run, max_steps: usize) -> (Vec<Violation>, Option<String>) {
 	let mut all = vec![];
 	let mut aborted = None;
+	let cont = known_continue(&run.prop_id);
 	while run.trace.len() < max_steps {
 		let st = match prop.next(run) {
 			Some(s) => s,
@@ -330,6 +345,10 @@ pub fn generate(prop: &mut dyn Prop, run: &mut Run, max_steps: usize) -> (Vec<Vi
 		let stc = st.clone();
 		let (out, v) = run.step(prop, st);
 		if !v.is_empty() {
+			if v.iter().all(|x| cont.contains(&x.signature)) {
+				run.known_hits.extend(v);
+				continue;
+			}
 			all.extend(v);
 			break;
 		}
